@@ -218,6 +218,12 @@ func (c *connection) onProcess(onConnect OnConnect, onRequest OnRequest) (proces
 			}
 		}
 	START:
+		// OnConnect (or anybody while it ran) may have installed the request handler with
+		// SetOnRequest: its own attempt to start processing failed because this task holds the
+		// processing lock, so the input buffered meanwhile has to be offered from here
+		if onRequest == nil {
+			onRequest, _ = c.onRequestCallback.Load().(OnRequest)
+		}
 		// The `onRequest` must be executed at least once if conn have any readable data,
 		// which is in order to cover the `send & close by peer` case.
 		if onRequest != nil && c.Reader().Len() > 0 {
